@@ -602,12 +602,31 @@ def run_target_contract(
 
 def _compute_frontier(ctx: ContractContext, depth: int) -> Iterator[Exec]:
     """
+    Computes the frontier states at a given depth, see _compute_frontier_states().
+
+    If the computation is not completed (an error occurred, or the caller stopped iterating),
+    the partial result is dropped from the cache, so that later tests recompute the frontier
+    instead of silently reusing an incomplete one.
+    """
+    visited_before = set(ctx.visited)
+    completed = False
+    try:
+        yield from _compute_frontier_states(ctx, depth)
+        completed = True
+    finally:
+        if not completed:
+            ctx.frontier_states.pop(depth, None)
+            ctx.visited.intersection_update(visited_before)
+
+
+def _compute_frontier_states(ctx: ContractContext, depth: int) -> Iterator[Exec]:
+    """
     Computes the frontier states at a given depth.
 
     This function iterates over the previous frontier states at `depth - 1` and executes an arbitrary function of an arbitrary target contract from each state.
     The resulting states form the new frontier at the current depth, which are yielded and also stored in the frontier state cache.
 
-    NOTE: this is internal, only to be called by get_frontier().
+    NOTE: this is internal, only to be called by _compute_frontier().
 
     Args:
         ctx: The contract context containing the previous frontier states and other information.
